@@ -36,7 +36,7 @@ BOUNDARY = ["", "0", "1", "-1", "2", "-", "00", "-0", "+7", " 8", "8 ", "1_0", "
             "12345678-1234-5678-1234-56781234567", "12345678-1234-5678-1234-56781234567g", "ABCDEFAB-CDEF-ABCD-EFAB-CDEFABCDEFAB",
             "4294967296", "-9999999999999999999999", "99999999999999999999999999", "0x10", "1.0", "1e400", "#x", " ", "  ",
             "12%", "%s", "5%d", "100%(SNP)s", "%", "%%", "{0}", "{x}", "\\", "'", "\"", "a'b", "None;None"]
-ADVERSARIAL = ["é", "٣", "１", "yeſ", "K", "a\x0bb", "\x1c5", "5\x1f", " " + "5", "1 ", "\x00", "a\x00b",
+ADVERSARIAL = ["a\rb", "x\ry;z", "BI\rBroad;WUGSC", "a\nb", "1\r2", "A\rC", "é", "٣", "１", "yeſ", "K", "a\x0bb", "\x1c5", "5\x1f", " " + "5", "1 ", "\x00", "a\x00b",
                "ßes", "\U0001F600", "À", "true", "ı", "İ"]
 
 
@@ -508,7 +508,7 @@ FOREIGN_CLASSES = ["StringColumn", "NullableStringColumn", "IntegerColumn", "Nul
                    "Strand", "VariantType", "NullableYesOrNo", "PickColumn", "MafColumnRecord", "StringOrIntegerColumn"]
 ODD_VALUES = [[0], [1, 1], [1, 0], [2, 0], [2, 1], [2, -1], [2, 7], [3, "1.5"], [3, "nan"], [4, ""], [4, "A"], [4, "a\tb"], [4, "a\nb"],
               [4, "a\rb"], [4, ";"], [4, "x;y"], [4, "-"], [4, "ACGT"], [4, "5"], [4, "Yes"], [7, []], [7, [[4, "a"]]], [7, [[4, ";"]]],
-              [7, [[4, "a;b"]]], [7, [[4, ""]]], [7, [[2, 3]]], [7, [[1, 1]]], [8, [[4, "t"]]], [5, "StrandEnum", 0], [5, "PickEnum", 1],
+              [7, [[4, "a;b"]]], [7, [[4, "a\tb"]]], [7, [[4, "x\ny"], [4, "z"]]], [7, [[4, "p"], [4, "q\rr"]]], [8, [[4, "a\tb"]]], [7, [[4, ""]]], [7, [[2, 3]]], [7, [[1, 1]]], [8, [[4, "t"]]], [5, "StrandEnum", 0], [5, "PickEnum", 1],
               [5, "NullableYesOrNoEnum", 0], [6, "12345678-1234-5678-1234-567812345678"], [9], [4, "é"], [4, " "], [2, 10 ** 30]]
 
 
@@ -602,8 +602,14 @@ def gen_write(rng, annots=None, strict_share=0.8):
             slots[rng.randrange(len(slots) - 1)] = None
         elif r < 0.9:
             slots[rng.randrange(len(slots))]["key"] = "Renamed_Column"
-        else:
+        elif r < 0.95:
             slots[rng.randrange(len(slots))]["idx_post"] = rng.choice([0, 3, 500])
+        else:
+            # two columns in each other's slots, their column_index attributes then set to the scheme's positions
+            i, j = rng.sample(range(len(slots)), 2)
+            slots[i], slots[j] = slots[j], slots[i]
+            slots[i]["idx_post"] = j
+            slots[j]["idx_post"] = i
     return {"kind": "write", "annot": annot, "slots": slots, "mode": 1 if rng.random() < strict_share else rng.choice([2, 3]),
             "sort": False, "stream": stream, "hit": sorted(set(hit))}
 
